@@ -134,3 +134,9 @@ func SpecSub(a, b, res int64) bool { return new(big.Int).Sub(bi(a), bi(b)).Cmp(b
 func FitsMul(a, b int64) bool      { return fits(new(big.Int).Mul(bi(a), bi(b))) }
 func FitsAdd(a, b int64) bool      { return fits(new(big.Int).Add(bi(a), bi(b))) }
 func FitsSub(a, b int64) bool      { return fits(new(big.Int).Sub(bi(a), bi(b))) }
+
+func pow(a int64, e int64) *big.Int { return new(big.Int).Exp(bi(a), bi(e), nil) }
+
+// SpecPow: res == a**e exactly (e >= 0, concrete in harnesses).
+func SpecPow(a, e, res int64) bool { return pow(a, e).Cmp(bi(res)) == 0 }
+func FitsPow(a, e int64) bool      { return fits(pow(a, e)) }
